@@ -21,15 +21,15 @@ CHECKS = {
  'C05': ('exploration', 'runtime monitoring: resubmission of executed transactions in equivalent encodings (CheckTx + byzantine block on forks, state compared with an empty-block twin, also after restart)',
          'Held on every resubmission executed: identical bytes and every other encoding that the repository\'s own deserialiser maps to the same signed content was refused by CheckTx and changed nothing when delivered later.',
          'The box waits for Tendermint\'s asynchronous indexer before resubmitting.', 'DESIGN.md 7 C05'),
- 'C06': ('exploration', 'runtime monitoring: lock-step twin that receives every block without the transactions that failed on the leader',
+ 'C06': ('exploration', 'runtime monitoring: lock-step twins — one receives every block without the transactions that failed on the leader, one without the first failed transaction only',
          'Held on every block compared: the twin committed the same app hash and returned the same results for the surviving transactions; failures were produced inside handlers and fee steps (gas limits below consumption, conflicting spends, byzantine delivery of rejected transactions).',
-         'MaxGas = -1; events and block hashes not compared.', 'DESIGN.md 7 C06'),
+         'MaxGas = -1; the block hash inside EVM log attributes is blanked (the twin blocks differ by construction), everything else in the results is compared.', 'DESIGN.md 7 C06'),
  'C07': ('exploration', 'runtime monitoring: lock-step twin with CheckTx calls injected at every class of ABCI call boundary',
          'Held on every block compared: a twin that additionally received CheckTx calls (the block\'s own, rejected, later, and check-only expire/finalize transactions) before/after BeginBlock, each DeliverTx, EndBlock and Commit produced the same consensus projection as the leader that received none.',
          'Injection happens where Tendermint\'s single ABCI mutex allows a CheckTx: between two consensus calls.', 'DESIGN.md 7 C07'),
  'C08': ('fault_enumeration', 'runtime monitoring with fault injection: SIGKILL at enumerated ABCI call boundaries, restart through the production start-up path, differential against the uninterrupted leader',
          'Held on every crash point executed: after a kill at each boundary class (after SaveBlock, BeginBlock, k-th DeliverTx, EndBlock, Commit, state save) the node restarted from disk, Info reported the last completed commit, the handshake replay reproduced the leader\'s results and every later block agreed.',
-         'kill -9 at ABCI boundaries; torn writes below the syscall boundary out of reach.', 'DESIGN.md 7 C08'),
+         'kill -9 at ABCI boundaries and some microseconds after them; torn writes below the syscall boundary out of reach. Every second history runs the mempool check on both nodes; a block whose results Tendermint refuses on one of the two nodes only is a divergence.', 'DESIGN.md 7 C08'),
  'C09': ('exploration', 'runtime monitoring: op-by-op differential of the real storage.State/ChainState against a reference map model and write-projection twin stores (exhaustive short sequences + long random ones)',
          'Held on all sequences executed: every Get/Exists/GetVersioned/Commit/reopen result equalled the reference model, and the root hash equalled that of twin stores that only received the writes; all sequences of length 4 (quick) / 6 (thorough) over a 17-op alphabet in five gas modes plus long random sequences on goleveldb with several rotation settings.',
          'Rotation: only versions the documented policy keeps are asserted.', 'DESIGN.md 7 C09'),
